@@ -561,6 +561,14 @@ func (c *campaign) report(seed uint64, t0 time.Time) int {
 				continue
 			}
 		}
+		if !gating {
+			// observing configurations and classes of other properties: record, do not spend time on them
+			observations = append(observations, map[string]string{"class": v.Class, "sig": v.Sig, "detail": firstLines(v.Detail, 4), "replay": orig})
+			if len(observations) <= 6 {
+				fmt.Printf("OBSERVATION property=%s class=%s sig=%s replay=%s (does not gate)\n", c.spec.ID, v.Class, v.Sig, orig)
+			}
+			continue
+		}
 		handled++
 		final := ""
 		if orig != "" {
